@@ -6,7 +6,8 @@ from gens import int_spec, resolve, expand
 import pyref.ec as EC
 import pyref.gf2x as G
 
-RULE = ("exhaustive part: complete small curves over GF(p) (p <= 31 quick, <= 251 thorough; A = -3 variants; orders prime, even, multiples of 3) and over GF(2^m) (m = 5,7 quick; up to 11 thorough): "
+RULE = ("exhaustive part: complete small curves over GF(p) (p <= 31 quick, <= 251 thorough; A = -3, A = +3, A = 0 and generic A; orders prime, even, multiples of 3); binary curves cannot be small in this library (gf2Create needs m - k >= B_PER_W), so on GF(2^m), m = 65..163, "
+        "a structured point subset (random points, their negatives and doubles, the order-2 point) takes the place of the complete curve: "
         "all ordered pairs (P,Q) in (E u {O})^2 through add/adda/sub/suba/AddAA/SubAA and all points through dbl/dbla/tpl/neg/NegA, with projective inputs rescaled (Z != 1) and the aliasing patterns c=a, c=b, a=b; "
         "generated part: scalars 0,1,2,q-1,q,q+1,2q,B^m-1 and random of 1..n+1 words on small curves and on the standard bign/bign96/GOST/DSTU curves for ecMulA, ecAddMulA, ecHasOrderA; ecpIsOnA on all (x,y) of the small fields; ecpSWU on all field elements. "
         "non-trivial: P == Q, P == -Q, an O operand, an order-2 point, an aliasing pattern, a scalar >= q or longer than n words; distinct by (curve, op, class)")
